@@ -73,6 +73,8 @@ type orcObj struct {
 	// (a.THIS.c); RefMulti: declared by more than one non-connection statement;
 	// RefEdgeOnly: exists only as a connection endpoint.
 	RefChain, RefMid, RefMulti, RefEdgeOnly, RefDotted bool
+	// RefChainInner: inner node of a chain (`x -> THIS -> y`: one key shared by two edges)
+	RefChainInner bool
 	// Foreign: at least one reference lives in another file (imported object).
 	Foreign bool
 	// RefFlatAttr: a dotted key continues with a reserved keyword right after this object
@@ -164,7 +166,10 @@ func orcSnapOf(g *d2graph.Graph) *orcSnap {
 		}
 		oo.LabelKW = orcLabelViaKeyword(o.Label.MapKey)
 		nKey := 0
-		for _, ref := range o.References {
+		for ri, ref := range o.References {
+			if ri > 0 && ref.Key != nil && ref.Key == o.References[ri-1].Key && ref.InEdge() {
+				oo.RefChainInner = true
+			}
 			if ref.Key != nil && ref.Key.Range.Path != "index.d2" {
 				oo.Foreign = true
 			}
